@@ -228,7 +228,8 @@ def build_model():
             rc, out, dt = coq_make(['Extract/Extract.vo'])
         exe = os.path.join(BUILD, 'model')
         srcs = ['model.mli', 'model.ml', 'rt.ml'] + sorted(
-            f for f in os.listdir(OCAML) if re.fullmatch(r'c\d\d\.ml|m_\w+\.ml', f)) + ['main.ml']
+            f for f in os.listdir(OCAML) if re.fullmatch(r'm_\w+\.ml', f)) + sorted(
+            f for f in os.listdir(OCAML) if re.fullmatch(r'c\d\d\.ml', f)) + ['main.ml']
         newest = max(os.path.getmtime(os.path.join(OCAML, s)) for s in srcs)
         if os.path.exists(exe) and os.path.getmtime(exe) >= newest:
             return exe
